@@ -56,6 +56,7 @@ func runMaint(t *testing.T, c explore.Case, which string) (res explore.Result) {
 			}
 		}
 		y.Take()
+		y.useImplFailed = true
 		dead := map[string]bool{}
 		byAddr := map[string]peer{}
 		var names []string
